@@ -56,4 +56,99 @@ theorem serial_refines (hiv : A.initVersion ≤ 1) (ents0 : Nat → Ent A) (L0 :
   exact this order { ents := ents0 } (L0, []) h0 rfl
 
 
+/-! ### the audit log in lock order -/
+
+/-- The calls on entity `e`, in lock-acquisition order. -/
+def callsOn (order : List (Acq (aggMachine A))) (e : Nat) : List (AggCall A) :=
+  (order.filter (·.ent == e)).map (·.op)
+
+/-- `(actor, details)` of the commands among the calls, in order. -/
+def commandStamps : List (AggCall A) → List (String × Option A.Cmd)
+  | [] => []
+  | .cmd _ c _ :: rest => (c.actor, some c.details) :: commandStamps rest
+  | _ :: rest => commandStamps rest
+
+def stampOf (c : Stored A) : String × Option A.Cmd := (c.actor, c.details)
+
+/-- Per entity, the serial execution on logs is the run of that entity's calls. -/
+theorem specSerial_ent (L0 : Nat → Log A) (order : List (Acq (aggMachine A))) (e : Nat) :
+    (specSerial L0 order).1 e = specRun (L0 e) ((callsOn order e).map AggCall.toOp) := by
+  have : ∀ (order : List (Acq (aggMachine A))) (sp : (Nat → Log A) × List (Nat × Out A)),
+      (order.foldl specSerialStep sp).1 e = specRun (sp.1 e) ((callsOn order e).map AggCall.toOp) := by
+    intro order
+    induction order with
+    | nil => intro sp; rfl
+    | cons a rest ih =>
+      intro sp
+      simp only [List.foldl_cons]
+      rw [ih]
+      by_cases he : a.ent = e
+      · have hb : (a.ent == e) = true := by simp [he]
+        simp [callsOn, specRun, specSerialStep, upd, he]
+        rfl
+      · have hb : (a.ent == e) = false := by simp [he]
+        have he' : ¬ (e = a.ent) := fun x => he x.symm
+        simp [callsOn, List.filter_cons, hb, specSerialStep, upd, he']
+  exact this order (L0, [])
+
+/-- What one call does to the log: nothing, or one record stamped with the command's actor and
+details. -/
+theorem specStep_call_cases (L : Log A) (c : AggCall A) :
+    (specStep L c.toOp).1 = L ∨
+    ∃ i sc wf rec_, c = .cmd i sc wf ∧ (specStep L c.toOp).1 = L ++ [rec_] ∧
+      stampOf rec_ = (sc.actor, some sc.details) := by
+  cases c with
+  | get i => left; simp only [AggCall.toOp, specStep]; split <;> rfl
+  | snap i wf => left; simp only [AggCall.toOp, specStep]; split <;> rfl
+  | cmd i sc wf =>
+    simp only [AggCall.toOp, specStep]
+    cases hf : finalOf L with
+    | none => left; rfl
+    | some w =>
+      simp only []
+      split
+      · left; rfl
+      · unfold specCommand
+        cases hp : A.process w.st sc.details with
+        | error err => right; exact ⟨i, sc, wf, _, rfl, rfl, rfl⟩
+        | ok evs =>
+          cases evs with
+          | nil => left; rfl
+          | cons ev evs =>
+            simp only []
+            cases applyEvents A w.st (ev :: evs) with
+            | none => left; rfl
+            | some s' =>
+              simp only []
+              cases A.preSave s' (ev :: evs) with
+              | some err => left; rfl
+              | none => right; exact ⟨i, sc, wf, _, rfl, rfl, rfl⟩
+
+/-- Running calls only appends to the log, and what is appended is – in order – a sub-sequence
+of the commands among the calls: every stored record belongs to exactly one command call, and
+the records are in the order of the calls. -/
+theorem specRun_calls_sublist (calls : List (AggCall A)) :
+    ∀ L : Log A, ∃ new : List (Stored A),
+      specRun L (calls.map AggCall.toOp) = L ++ new ∧
+      (new.map stampOf).Sublist (commandStamps calls) := by
+  induction calls with
+  | nil => intro L; exact ⟨[], by simp [specRun], by simp [commandStamps]⟩
+  | cons c rest ih =>
+    intro L
+    simp only [List.map_cons, specRun, List.foldl_cons]
+    rcases specStep_call_cases L c with h0 | ⟨i, sc, wf, rec_, hc, h1, hst⟩
+    · rw [h0]
+      obtain ⟨new, hn, hs⟩ := ih L
+      refine ⟨new, hn, ?_⟩
+      cases c with
+      | cmd i sc wf => exact List.Sublist.cons _ hs
+      | get i => exact hs
+      | snap i wf => exact hs
+    · rw [h1]
+      obtain ⟨new, hn, hs⟩ := ih (L ++ [rec_])
+      refine ⟨rec_ :: new, by simp only [specRun] at hn; rw [hn]; simp, ?_⟩
+      subst hc
+      simp only [List.map_cons, commandStamps, hst]
+      exact List.Sublist.cons_cons _ hs
+
 end KM.Sys
